@@ -808,3 +808,8 @@ where
         .iter()
         .filter(|(k, _v)| !absent_here.contains_key(k))
 }
+
+#[cfg(scylla_verif)]
+#[path = "worker_verif.rs"]
+#[allow(missing_docs, unreachable_pub, unnameable_types, clippy::result_unit_err)]
+pub(crate) mod verif;
